@@ -25,6 +25,8 @@
 EXTENDS Integers, FiniteSets, Sequences, TLC
 
 CONSTANTS Procs, Keys, ZERO, Mgrs, MaxOps, TombCheck,
+          Ops,          \* request kinds: subset of {"lock", "touch", "unlock", "longlock"} (longlock = a hold that goes to the
+                        \* long-wait table at once: the manager is downgraded from the fast slot into the map)
           A16FastFixed, \* TRUE: part (a) of the possible repair: the fast path always consults the map
           A16Fixed,     \* TRUE: part (b) of a POSSIBLE repair of finding A16 (not in the code): the fast path always consults the map, the
                         \* slow path never allocates while the slot is being changed (lock = 1) and re-reads a published slot
@@ -61,7 +63,7 @@ Live(x) == x # None /\ refc[x] # TOMB
 \* ---------------------------------------------------------------- request start
 Start(p) ==
     /\ pc[p] = "idle" /\ nops[p] < MaxOps
-    /\ \E o \in {"lock", "touch", "unlock"}, k \in Keys :
+    /\ \E o \in Ops, k \in Keys :
           /\ op' = [op EXCEPT ![p] = o] /\ key' = [key EXCEPT ![p] = k]
           /\ Goto(p, IF o = "unlock" THEN "get" ELSE "gn_cas")
     /\ nops' = [nops EXCEPT ![p] = @ + 1]
@@ -186,6 +188,12 @@ Section(p) ==
               /\ held' = [held EXCEPT ![x] = @ + 1]
               /\ hkey' = [hkey EXCEPT ![x] = IF held[x] = 0 THEN key[p] ELSE @]
               /\ mutex' = None /\ Goto(p, "idle")
+         [] op[p] = "longlock" ->
+              \* a hold whose timer goes to the long table: AddExpried calls downgradeLockManager (db.go:1613) in the section
+              /\ refc' = [refc EXCEPT ![x] = @ + 1]
+              /\ held' = [held EXCEPT ![x] = @ + 1]
+              /\ hkey' = [hkey EXCEPT ![x] = IF held[x] = 0 THEN key[p] ELSE @]
+              /\ IF fkv[x] /\ slot.lock = 2 /\ slot.manager = x THEN Goto(p, "downgrade") /\ UNCHANGED mutex ELSE mutex' = None /\ Goto(p, "idle")
          [] op[p] = "touch" ->
               \* grant without a hold: GetOrNewLock (+1), FreeLock (-1); RemoveLockManager when no reference is left
               /\ UNCHANGED <<refc, held, hkey>>
@@ -198,6 +206,15 @@ Section(p) ==
                    /\ IF refc[x] - 1 = 0 THEN Goto(p, "remove") /\ UNCHANGED mutex ELSE mutex' = None /\ Goto(p, "idle")
               ELSE /\ UNCHANGED <<refc, held, hkey>> /\ mutex' = None /\ Goto(p, "idle")
     /\ UNCHANGED <<slot, map, mglock, mkey, fkv, free, op, key, m, nops>>
+
+\* downgradeLockManager: under mGlock the manager moves from the fast slot into the map, the slot is released
+Downgrade(p) ==
+    /\ pc[p] = "downgrade" /\ mglock = None
+    /\ LET x == m[p] IN
+          /\ map' = [map EXCEPT ![mkey[x]] = x]
+          /\ slot' = [slot EXCEPT !.manager = None, !.lock = 0]
+    /\ mutex' = None /\ Goto(p, "idle")
+    /\ UNCHANGED <<mglock, refc, mkey, fkv, held, hkey, free, op, key, m, nops>>
 
 \* RemoveLockManager (db.go:1529), still under the shard mutex
 Remove(p) ==
@@ -229,7 +246,7 @@ Remove(p) ==
 
 Next == \E p \in Procs :
            \/ Start(p) \/ GnCas(p) \/ GnFastMap(p) \/ GnFastAlloc(p) \/ GnRef(p) \/ GnRead(p)
-           \/ GnSlowLock(p) \/ GnSlowLook(p) \/ GnSlowCas(p) \/ GnSlowIns(p) \/ GnSlowCnt(p) \/ Get(p) \/ TakeMutex(p) \/ Recheck(p) \/ Section(p) \/ Remove(p)
+           \/ GnSlowLock(p) \/ GnSlowLook(p) \/ GnSlowCas(p) \/ GnSlowIns(p) \/ GnSlowCnt(p) \/ Get(p) \/ TakeMutex(p) \/ Recheck(p) \/ Section(p) \/ Remove(p) \/ Downgrade(p)
 
 Spec == Init /\ [][Next]_vars
 
@@ -238,5 +255,5 @@ Spec == Init /\ [][Next]_vars
 NoHoldInDeadManager == \A x \in Mgrs : held[x] > 0 => refc[x] # TOMB
 OneManagerPerHeldKey == \A x, y \in Mgrs : (x # y /\ held[x] > 0 /\ held[y] > 0) => hkey[x] # hkey[y]
 RefsCoverHolds == \A x \in Mgrs : refc[x] # TOMB => refc[x] >= held[x]
-MutexOK == \A p, q \in Procs : (p # q /\ pc[p] \in {"recheck", "section", "remove"}) => pc[q] \notin {"recheck", "section", "remove"}
+MutexOK == \A p, q \in Procs : (p # q /\ pc[p] \in {"recheck", "section", "remove", "downgrade"}) => pc[q] \notin {"recheck", "section", "remove", "downgrade"}
 =============================================================================
